@@ -8,6 +8,7 @@ import io
 import json
 import os
 import random
+import re
 import signal
 import struct
 import sys
@@ -486,7 +487,8 @@ def runner_truth(runner):
         for item in lst:
             # (test, exc_info) pairs; unexpected successes are appended as bare tests
             t = item[0] if isinstance(item, tuple) else item
-            out.append(' '.join(str(t).strip().split('\n')))
+            # protocol convention: one line per name, line breaks become blanks
+            out.append(re.sub(r'[\r\n]+', ' ', str(t).strip()))
         return out
     return {'ran': runner.ran, 'failures': names(runner.failures),
             'errors': names(runner.errors), 'skipped': len(runner.skipped),
@@ -783,6 +785,18 @@ class Env:
             # *live* actor precedes it
             prio = {idx: p for p, idx in enumerate(order)}
             sched = self.sched
+            if mode.get('strict'):
+                # strict: every child that precedes this one in the order (spawned or not
+                # yet) must have exited first.  Only used for orders that the N-slot start
+                # policy makes feasible: then a correct parent can never deadlock, while one
+                # that fails to refill a free slot ends in a structural HANG.
+                def strict_gate(a):
+                    mine = prio.get(a.simpid - 1)
+                    if mine is None:
+                        return True
+                    exited = {b.simpid - 1 for b in sched.actors if not b.alive}
+                    return all(idx in exited for idx, p in prio.items() if p < mine)
+                return strict_gate
 
             def gate(a):
                 mine = prio.get(a.simpid - 1, 10 ** 6 + a.simpid)
